@@ -1578,6 +1578,11 @@ static int init_tables(void)
 	signed int n;
 	double o,m;
 
+	/* the tables are the same for every chip: build them once (first at program start, see the end of this file) */
+	static int tables_built = 0;
+	if (tables_built)
+		return 1;
+
 	for (x=0; x<TL_RES_LEN; x++)
 	{
 		m = (1<<16) / pow(2, (x+1) * (ENV_STEP/4.0) / 8.0);
@@ -1683,6 +1688,7 @@ static int init_tables(void)
 	sample[0]=fopen("sampsum.pcm","wb");
 #endif
 
+	tables_built = 1;
 	return 1;
 
 }
@@ -2685,6 +2691,11 @@ void Init_ADPCMATable()
 {
 	int step, nib;
 
+	/* chip independent: built once */
+	static int table_built = 0;
+	if (table_built)
+		return;
+
 	for (step = 0; step < 49; step++)
 	{
 		/* loop over all nibbles and compute the difference */
@@ -2694,7 +2705,14 @@ void Init_ADPCMATable()
 			jedi_table[step*16 + nib] = (nib&0x08) ? -value : value;
 		}
 	}
+	table_built = 1;
 }
+
+/* Build the chip independent tables while the program starts: chips created later, on any thread, only read them */
+static struct FMGenericTables
+{
+	FMGenericTables() { init_tables(); Init_ADPCMATable(); }
+} s_fmGenericTables;
 
 #ifdef MAME_EMU_SAVE_H
 /* FM channel save , internal state only */
